@@ -885,6 +885,10 @@ public:
                 o["elidable"] = true;
             if (isa<CXXTemporaryObjectExpr>(ce))
                 o["temp"] = true;
+            if (ce->isListInitialization())
+                o["list"] = true;
+            if (ce->isStdInitListInitialization())
+                o["std_init_list"] = true;
             auto r = reachJson(cd);
             if (!r.empty())
                 o["reaches"] = std::move(r);
@@ -899,6 +903,8 @@ public:
             o["k"] = "construct";
             o["ctor"] = nullptr;
             o["dep"] = true;
+            if (uc->isListInitialization())
+                o["list"] = true;
             o["name"] = ty(uc->getTypeAsWritten());
             o["type"] = ty(uc->getTypeAsWritten());
             std::vector<const Expr*> args(uc->arg_begin(), uc->arg_end());
